@@ -6,6 +6,7 @@ import (
 	"io"
 	"os"
 	"runtime"
+	"slices"
 	"strconv"
 	"strings"
 	"time"
@@ -210,6 +211,9 @@ func (c *Config) ParseEnv() error {
 // ParseConfig returns filled Config options from a configuration file.
 func ParseConfig(confFile string) (Config, error) {
 	conf := defaultConfig
+	// The copy above shares the root-dirs slice with the defaults: detach it, so
+	// that callers changing the returned value do not change later results.
+	conf.Storage.RootDirs = slices.Clone(conf.Storage.RootDirs)
 
 	if confFile != "" {
 		f, err := os.Open(confFile)
